@@ -87,6 +87,13 @@ func customC15(r *Run) ([]Crash, error) {
 		failed := map[string]bool{}
 		for _, o := range outs {
 			failed[o.Src.Name] = true
+			if strings.Count(o.Src.Sig, "l")+strings.Count(o.Src.Sig, "g") >= 6 {
+				// six-node shapes are outside C05's enumerated bound: a source struct for which no
+				// code can be generated has no file to regenerate from; counted, not judged
+				r.M.Counters["six_node_source_shapes_that_do_not_build"]++
+				r.M.Counters["programs_enumerated"]--
+				continue
+			}
 			r.M.Inconclusive = append(r.M.Inconclusive, fmt.Sprintf("source shape %s (%s) does not build (%s): a C05 matter, yet not listed there", o.Src.Name, o.Src.Sig, o.Kind))
 		}
 		if binA == "" {
